@@ -118,6 +118,8 @@ def module_text(cond_text, lam_params, role="require", is_async=False, descripti
         lines.append("def make(C, CS, CL, H):")
         ind = "    "
         scope = "make"
+        # the enclosing scope can re-bind the closure variables of the condition later on (F.rebind(...))
+        lines += [ind + "def _rebind(c, cs, cl, h):", ind + "    nonlocal C, CS, CL, H", ind + "    C, CS, CL, H = c, cs, cl, h"]
         if nest == "class" and role != "invariant":
             lines.append(ind + "class Holder:")
             ind += "    "
@@ -147,10 +149,12 @@ def module_text(cond_text, lam_params, role="require", is_async=False, descripti
         lines.append("")
         lines.append("F = %s" % ret)
     elif nest == "class" and role != "invariant":
+        lines.append("    Holder.f.rebind = _rebind")
         lines.append("    return Holder.f")
         lines.append("")
         lines.append("F = make(%(C)r, %(CS)r, %(CL)r, %(H)r)" % GR.CLOSURE_VALUES)
     else:
+        lines.append("    %s.rebind = %s" % (ret, "staticmethod(_rebind)" if role == "invariant" else "_rebind"))
         lines.append("    return %s" % ret)
         lines.append("")
         lines.append("F = make(%(C)r, %(CS)r, %(CL)r, %(H)r)" % GR.CLOSURE_VALUES)
